@@ -386,3 +386,59 @@ func VerifC08CrashDuringRollback() {
 		verifAssert(afterOK, "a completed rollback is durable")
 	}
 }
+
+// VerifC07HistoricalOrderedScan: an ordered prefix scan over the view of commit G after 1..2 later commits yields
+// exactly the keys that existed at G under the prefix, in byte order, each once, with their values as of G.
+// Regions of known findings: a key with an EMPTY value at G (dropped from historical scans, F20).
+func VerifC07HistoricalOrderedScan() {
+	ldb := verifNewLdb()
+	m := verifNewManager(ldb)
+	ids := []types.HashHeight{c06ID(1, 1), c06ID(2, 2), c06ID(3, 3)}
+	opsG := c06Ops("G", verifParam("gops", 2))
+	verifAssert(c06Add(m, ids[0], types.ZeroHashHeight, opsG) == nil, "genesis commit")
+	atG := c06Ref{}.apply(opsG)
+	later := verifNondetLen("later commits", 1, verifParam("later", 2))
+	for i := 1; i <= later; i++ {
+		verifAssert(c06Add(m, ids[i], ids[i-1], c06Ops("C", 1)) == nil, "commit on frontier")
+	}
+	view := m.Get(ids[0])
+	verifAssert(view != nil, "a view of a known commit exists")
+	// (the empty prefix would also list the store's own frontier bookkeeping keys)
+	prefixes := [][]byte{{'a'}, {'a', 'b'}, {'b'}}
+	prefix := prefixes[verifNondetLen("prefix (index into {a, ab, b})", 0, 2)]
+	got := c07Scan(view, prefix)
+	var want []c07KV
+	emptyAtG := false
+	for _, k := range c07Universe {
+		if len(k) < len(prefix) || !bytes.Equal(k[:len(prefix)], prefix) {
+			continue
+		}
+		if o := atG.obs(k); o.has {
+			want = append(want, c07KV{k, o.val})
+			if len(o.val) == 0 {
+				emptyAtG = true
+			}
+		}
+	}
+	var live []c07KV
+	for i, e := range got {
+		if i > 0 {
+			verifAssert(bytes.Compare(got[i-1].k, e.k) < 0, "keys strictly increasing: ordered and each key once")
+		}
+		verifAssert(len(e.k) >= len(prefix) && bytes.Equal(e.k[:len(prefix)], prefix), "only keys under the prefix")
+		if e.v == nil {
+			continue // tombstone entries are skipped by callers
+		}
+		live = append(live, e)
+	}
+	verifReach("non-empty historical scan", len(live) > 0)
+	same := len(live) == len(want)
+	if same {
+		for i := range live {
+			if !bytes.Equal(live[i].k, want[i].k) || !bytes.Equal(live[i].v, want[i].v) {
+				same = false
+			}
+		}
+	}
+	verifAssertKnown(same, "a historical scan yields exactly the keys and values as of its commit", emptyAtG, "C07-F20")
+}
